@@ -390,6 +390,9 @@ func oracle(c *Case, o *Obs) (string, string) {
 
 func tagsOf(c *Case, o *Obs) []string {
 	t := []string{"par:" + c.Par, "class:" + o.Class, fmt.Sprintf("depth:%d", depthOf(c.G)), fmt.Sprintf("graphs:%d", countGraphs(c.G))}
+	if !whitebox {
+		t = append(t, "whitebox:unavailable")
+	}
 	faults := map[string]int{}
 	maxPar := 0
 	var walk func(g *Graph)
